@@ -16,6 +16,10 @@ Workload (one case = a session of 50-130 packets on the UTMI receive side, rv/re
   or random), CRC5 damaged (each single-bit flip of the 16 payload/CRC bits, or random CRC), PID
   check nibble damaged, truncated (0, 1, 2 bytes), over-long (4-6 bytes, including two well-formed
   tokens glued together and a damaged token followed by a well-formed one inside the same packet),
+  concatenations inside one packet (6-8 bytes: [complete CRC-valid token for us or a foreign address
+  | handshake/data PID byte] + 0/1/2 filler bytes + [well-formed token for us | well-formed SOF],
+  each filler length both gapless and with rx_valid gaps, so that a detector which re-arms on later
+  bytes of the same packet is caught whatever its re-parse alignment),
   three-byte packets with a non-token PID (SPLIT, PRE/ERR, reserved, DATAx, handshakes) whose
   payload would be a valid token, data packets whose payload is a token image, handshakes.
   Every packet draws its own timing: lead-in 1-3, byte gaps none/fixed/random/one long stall,
@@ -60,7 +64,7 @@ REQUIRED_BINS = [
     "gap_none", "gap_fixed", "gap_random", "gap_onestall", "trail_nonzero", "lead_gt1", "idle_1_before_good_token",
     "good_after_rejected", "mode_standalone_60", "mode_standalone_12", "mode_device", "address_nonzero", "address_changed",
     "sof_low7_equals_address", "sof_low7_differs", "endpoint_nonzero", "same_token_twice",
-]
+] + ["reject_concat_%s_f%d_%s" % (k, f, g) for k in ("token", "nontoken") for f in (0, 1, 2) for g in ("gapless", "gapped")]
 REQUIRED_EVENTS = ["packets_judged", "new_token_strobes", "new_frame_strobes", "token_fields_compared", "frame_compared",
                    "is_flags_compared", "cycles_monitored", "expect_token", "expect_frame", "expect_nothing"]
 ASSUMPTIONS = [
@@ -278,6 +282,26 @@ def run_case(rng, tier, res):
         tpid = rng.choice([IN, OUT, SETUP, PING])
         endp = rng.choice([0, 0, 1, 15, rng.randrange(16), rng.randrange(16)])
         good = token_bytes(tpid, addr, endp)
+        if rng.random() < 0.10:
+            # concatenation inside ONE packet: [complete CRC-valid token (ours or foreign) | handshake/data PID byte]
+            # + 0..2 filler bytes + [3 bytes that are a well-formed token for us or a well-formed SOF].
+            # A detector that re-arms on later bytes of the same packet reports the tail; the filler length at which
+            # its re-parse lines up depends on whether the bytes come gapless or with rx_valid gaps: generate all.
+            if rng.random() < 0.7:
+                a1 = addr if rng.random() < 0.5 else foreign_address(addr)[0]
+                head, kind = token_bytes(rng.choice([IN, OUT, SETUP, PING, SOF]), a1, rng.randrange(16)), "token"
+            else:
+                head, kind = bytes([pid_byte(rng.choice([0x2, 0xA, 0xE, 0x6, 0x3, 0xB, 0x7, 0xF]))]), "nontoken"
+            nfill = rng.randrange(3)
+            fill = bytes(rng.choice([rng.randrange(256), pid_byte(rng.randrange(16)), 0x00, 0xFF]) for _ in range(nfill))
+            if rng.random() < 0.7:
+                tail = token_bytes(rng.choice([IN, OUT, SETUP, PING]), addr, rng.randrange(16))
+            else:
+                fr = rng.randrange(2048)
+                tail = token_bytes(SOF, fr & 0x7F, fr >> 7)
+            style = rng.choice(["gapless", "gapped"])
+            st["force_profile"] = "none" if style == "gapless" else rng.choice(["fixed1", "fixed", "random"])
+            return head + fill + tail, "concat+concat_%s_f%d_%s" % (kind, nfill, style)
         if r < 0.24:
             if st["prev_pkt"] is not None and decode(st["prev_pkt"], addr)[0] == "token" and rng.random() < 0.25:
                 return st["prev_pkt"], "good_token_repeat"
@@ -394,7 +418,12 @@ def run_case(rng, tier, res):
                 new = rng.randrange(128) if w < 0.6 else rng.choice([0, 127, 64, 1, st["addr"] ^ (1 << rng.randrange(7))])
                 yield from set_address(new)
             pkt, label = make_packet()
-            profile, lead, gaps, trail = wire.timing(len(pkt))
+            forced = st.pop("force_profile", None)
+            profile, lead, gaps, trail = wire.timing(len(pkt), "fixed" if forced == "fixed1" else forced)
+            if forced == "fixed1":
+                gaps = [1] * len(pkt)
+            elif forced == "random" and not any(gaps):
+                gaps[rng.randrange(1, len(gaps))] = 1
             res.bin("gap_" + profile)
             if trail:
                 res.bin("trail_nonzero")
